@@ -223,7 +223,10 @@ def run(ctx):
     capture_selection(ctx, res, cd, kb)
 
     # ---------------- C06.e
-    kcalls = [n for n in ast.walk(cl.node) if isinstance(n, ast.Call) and isinstance(n.func, ast.Attribute) and n.func.attr == kb.name]
+    # the per-call wrapper together with the helper functions defined beside it that it calls
+    called_here = {n.func.id for n in ast.walk(cl.node) if isinstance(n, ast.Call) and isinstance(n.func, ast.Name)}
+    beside = [sib for nm_, sib in (cl.parent.nested.items() if cl.parent is not None else []) if not isinstance(sib, list) and sib is not cl and nm_ in called_here]
+    kcalls = [n for f_ in [cl] + beside for n in ast.walk(f_.node) if isinstance(n, ast.Call) and isinstance(n.func, ast.Attribute) and n.func.attr == kb.name]
     if len(kcalls) < 1:
         raise AnalysisError('anchor-lost: input closure builds %d keys (main + fallback expected)' % len(kcalls))
     main = kcalls[0]
@@ -237,7 +240,7 @@ def run(ctx):
     # every call and must not be written into while the candidates of one call are put together
     from . import common as _cm6
     fac6, deco6, _cl6 = roles.closures['input']
-    shared_w = [(o_, x) for o_ in (fac6, deco6) for x in _cm6.closure_state_writes(o_.node, cl.node)]
+    shared_w = [(o_, x) for o_ in (fac6, deco6) for f_ in [cl] + beside for x in _cm6.closure_state_writes(o_.node, f_.node)]
     ce.instance('candidate aliases of a call are assembled without writing into objects shared by all calls', cl.qualname, not shared_w)
     for o_, (n_, nm_, what_) in shared_w[:1]:
         res.add(Finding('C06', 'C06.e', 'R-AGREE', cl.file, cl.qualname, n_.lineno, norm(n_)[:100],
